@@ -95,6 +95,13 @@ def run(ctx, chk):
             for path in EA.prod_paths(nt, k):
                 if getattr(path, "action", None) != ua["idx"] or any(e.kind == "error" for e in path.effects):
                     continue
+                has_label = any(s_["t"] == "nt" and s_["name"] == "label" for s_ in p["symbols"])
+                if has_label and not any(e.kind == "map" and e.target == "context.label_map" and e.op == "insert" for e in path.effects):
+                    cond = "; ".join(c[0][:60] for c in path.conds[-2:])
+                    chk.violation("C12.R2", label, "label-not-bound-on-accepting-path",
+                                  f"{label}: an accepting path of the directive ({cond or 'unconditional'}) does not bind its label to the data counter: the label keeps what the "
+                                  f"`label` nonterminal registered for it (a code label at the current code index), so jumps to it are accepted and operands on it are refused", where)
+                    continue
                 pushes = [e for e in path.effects if e.kind == "push" and e.target == "out.data"]
                 if len(pushes) != 1 or not isinstance(pushes[0].value, Str):
                     chk.undecided_("C12.R1", label, "not exactly one template pushed to out.data")
